@@ -1,12 +1,14 @@
 #!/bin/bash
-# usage: tools/seedtest.sh <patch file> <check id>...   applies the patch to /repo, runs the quick checks, reverts
+# usage: tools/seedtest.sh <patch file> <check id>...
+# Runs the quick checks against a scratch copy of /repo's committed tree with the patch applied (PYTHONPATH override, as
+# tools/mut.py does), so /repo itself is never modified and several of these can run side by side.
+# (Equivalent to: git -C /repo apply <patch>; ./check ...; git -C /repo checkout -- .)
 set -u
-patch="$1"; shift
-git -C /repo diff --quiet || { echo "/repo has local changes, refusing"; exit 2; }
-git -C /repo apply "$patch" || { echo "patch does not apply"; exit 2; }
-out=$(mktemp -d)
+patch=$(readlink -f "$1"); shift
+base=$(mktemp -d)
+git -C /repo archive HEAD src | tar -x -C "$base" || exit 2
+( cd "$base" && git init -q . && git apply "$patch" ) || { echo "patch does not apply"; rm -rf "$base"; exit 2; }
 for c in "$@"; do
-  VERIF_OUT_DIR=$out /verif/check "$c" --tier quick 2>&1 | grep -v -E "Hypothesis|text_repr|KNOWN-FINDING|SyntaxWarning" | grep -E "VIOLATION|kind=|^\[C" | head -6
+  PYTHONPATH=$base/src VERIF_OUT_DIR=$base/out /verif/check "$c" --tier quick 2>&1 | grep -v -E "Hypothesis|text_repr|KNOWN-FINDING|SyntaxWarning" | grep -E "VIOLATION|kind=|^\[C" | head -6
 done
-git -C /repo checkout -- . ; rm -rf "$out" /repo/.mypy_cache
-git -C /repo status --short | head -3
+rm -rf "$base"
